@@ -15,7 +15,7 @@ func init() { register("C01", "exploration", checkC01) }
 
 func c01Counts(c *ev.Ctx) (n int, big bool) {
 	if thorough(c) {
-		return 12000, true
+		return 24000, true
 	}
 	return 1500, false
 }
